@@ -431,3 +431,19 @@ CHECKS["C09"]["rule"] += (" Simultaneity layer (TestVF_C09_Simultaneous): 4-8 ta
                           "(503 when none), and each of them does. Non-trivial there = two or more rounds in which at least two targets changed together.")
 
 CHECKS["C13"]["rule"] += " Response framing also includes a chunked body followed by a trailer field, which must reach the client (as a trailer; among the headers when the response is buffered)."
+
+# History layers (after round 5): one generated history, four aspects.
+HIST_RULE = (" History layer (TestVF_%s_History): 1-14 generated commands on up to four services with the full option set (a sixth of them model-invalid and "
+             "refused), a restart of the proxy from its state file after any of them (probability 1/6 each); then every running service is sent a fixed "
+             "request suite (plain GET, a target that drops the connection, request and response bodies around every limit on the grid, targets answering "
+             "just before and after every timeout on the grid) through the logging middleware. Oracle, against the model and not another proxy: %s "
+             "decided by the options of the service's last successful deploy. Non-trivial there = a service observed after a redeploy or a restart.")
+for _id, _what in (("C13", "the path (prefix stripped or not) and query the target sees, X-Forwarded-For and X-Forwarded-Proto as the forward-headers option says, are"),
+                   ("C14", "413 exactly for request bodies over the request limit in force (buffering on), 500 exactly for response bodies over the response limit, full bodies otherwise, are"),
+                   ("C15", "504 at exactly the response timeout in force for slower targets and 200 for faster ones, 502 for a dropped connection with the custom page exactly when the error-page directory in force has one, are"),
+                   ("C19", "exactly one access-log record per request with the status, service, target, path, duration and client address of what happened, and the request / response headers asked for (none otherwise), are")):
+    CHECKS[_id]["layers"].append(L("TestVF_%s_History" % _id, 300, 4000))
+    CHECKS[_id]["rule"] += HIST_RULE % (_id, _what)
+CHECKS["C11"]["rule"] += (" Compared as well: each proxy's own access-log record for every request of the behaviour suite, the answer to a target that drops the "
+                          "connection (502 and its page), and - against the model - the probes the two proxies send in the 12 s after the continuation: each "
+                          "target of each service gets them on the health path and at the interval of the service's options (count within one per stream).")
